@@ -368,9 +368,12 @@ def state_violations(U: Universe, obs):
 
 
 def has_duplicate_links(obs):
+    """True when some link list holds the same task more than TWICE. States with a doubled entry are expanded (their
+    futures are where a lost mirror update shows); beyond two copies the space would be infinite."""
     for t in obs[0]:
-        if len(set(t[2])) != len(t[2]) or len(set(t[3])) != len(t[3]):
-            return True
+        for lst in (t[2], t[3]):
+            if len(lst) != len(set(lst)) and max(lst.count(x) for x in set(lst)) > 2:
+                return True
     return False
 
 
